@@ -332,11 +332,11 @@ Proof.
   - inversion H; subst. exact Ha.
 Qed.
 
-Lemma deduct_fee_bal b who b1 : deduct_fee b who = Some b1 -> who <> FARM -> who <> COLL ->
+Lemma deduct_fee_bal cf tr b who b1 : deduct_fee cf tr b who = Some b1 -> who <> FARM -> who <> COLL ->
   forall d, bal b1 FARM d = bal b FARM d /\ bal b1 COLL d = bal b COLL d.
 Proof.
-  unfold deduct_fee. set (tax := dec_truncate_int (dec_mul (dec_of_int creation_fee) tax_rate)).
-  destruct (send b who FARM STAKE creation_fee) as [l1|] eqn:E1; [|discriminate].
+  unfold deduct_fee. set (tax := dec_truncate_int (dec_mul (dec_of_int cf) tr)).
+  destruct (send b who FARM STAKE cf) as [l1|] eqn:E1; [|discriminate].
   destruct (send l1 FARM FEEC STAKE tax) as [l2|] eqn:E2; [|discriminate].
   intros E3 HwF HwC d.
   destruct (send_bal _ _ _ _ _ _ E1) as [_ H1]. destruct (send_bal _ _ _ _ _ _ E2) as [_ H2]. destruct (send_bal _ _ _ _ _ _ E3) as [_ H3].
@@ -388,7 +388,7 @@ Proof.
     - constructor.
     - constructor. }
   destruct (send_many_bal _ _ _ _ _ Hsend) as [_ Hb2].
-  pose proof (deduct_fee_bal _ _ _ Hfee HwF HwC) as Hb1.
+  pose proof (deduct_fee_bal _ _ _ _ _ Hfee HwF HwC) as Hb1.
   constructor; simpl.
   - apply Forall_vals_set; [exact (i_pools _ I)|exact PI0].
   - pose proof (i_seq _ I) as Hseq. apply Forall_forall. intros x Hx. destruct (keys_set_in _ _ _ _ Hx) as [->|Hin]; [unfold id; lia|].
